@@ -100,6 +100,30 @@ def run(tier):
         elif g["pings"] != e["pings"]:
             mism += 1
             verd.witness("ping-count", "/".join(e["s"]), "script %s: expected %d pings, saw %d" % (e["s"], e["pings"], g["pings"]), {"script": e["s"], "expected": e, "got": g})
+    # cadence: "sends a ping every interval": the n-th ping of an always-answered loop happens n intervals after the start
+    # (the model's Tick step is bound to the ticker period here; timing observer, so it must reproduce three times)
+    def cadence(n, iv):
+        pp = vlib.run_drive(binary, ["run", "keepalive", "-j", "1", "-c", "1", "-timeout", "60s"],
+                            stdin=json.dumps({"id": "cad", "cadence": n, "intervalMs": iv}) + "\n", timeout=120)
+        rows = [json.loads(l) for l in pp.stdout.splitlines() if l.strip()]
+        if pp.returncode != 0 or not rows or "last_us" not in rows[0]:
+            raise vlib.Infra("cadence run failed: %s %s" % (pp.stdout[-300:], pp.stderr[-300:]))
+        return rows[0]
+    cad_runs = 0
+    for n, iv in ((20, 20), (40, 5)) if tier == "quick" else ((20, 20), (40, 5), (60, 10), (10, 100)):
+        verdicts = []
+        for attempt in range(3):
+            g = cadence(n, iv)
+            cad_runs += 1
+            want = n * iv * 1000.0
+            v = "early" if g["last_us"] < want * 0.97 - 500 else "late" if g["last_us"] > want * 1.5 + 40000 else "ok"
+            verdicts.append((v, g))
+            if v == "ok":
+                break
+        if all(v == verdicts[0][0] != "ok" for v, _ in verdicts) and len(verdicts) == 3:
+            g = verdicts[-1][1]
+            verd.witness("ping-cadence", verdicts[0][0], "interval %d ms: ping %d sent %.1f ms after the start (expected about %d ms); three runs agree"
+                         % (iv, n, g["last_us"] / 1000.0, n * iv), {"n": n, "intervalMs": iv, "runs": [x for _, x in verdicts]})
     # reconnecting client
     rec = reconn_scenarios(tier, rng)
     byid = {s["id"]: s for s in rec}
